@@ -716,7 +716,15 @@ fn c08_clone_from_pair<A: Elem, B: Elem>(ctx: &mut Ctx, max_len: usize) {
             };
             let _ = reg::take_clone_log();
             let Pair { va, vb, .. } = &mut p;
+            monalloc::window_open();
             let r = guarded(|| va.clone_from(&*vb));
+            monalloc::window_reset();
+            sp.drain_alloc(opsig, &desc);
+            // storage of the destination is aligned for the element type it now holds
+            let base = p.va.as_bytes().as_ptr() as usize;
+            if r.is_ok() && base % align_of::<B>() != 0 {
+                sp.viol("align", opsig, format!("after clone_from the destination's storage pointer {base:#x} is not aligned to {} (its new element type)", align_of::<B>()), &desc);
+            }
             if let Err(m) = r {
                 sp.viol("model", opsig, format!("clone_from panicked: {m}"), &desc);
                 std::mem::forget(p);
@@ -809,18 +817,101 @@ fn c08_clone_from_pair<A: Elem, B: Elem>(ctx: &mut Ctx, max_len: usize) {
             sp.done(&desc, true, opsig);
         }
     }
+    // a destination that is not empty and too small for the source (same element type: storage may be reused), and a
+    // `Clone::clone` that panics at the k-th element: the destination must stay a valid vector
+    if TypeId::of::<A>() == TypeId::of::<B>() {
+        for (la, lb) in [(2usize, 3usize), (1, 3), (3, 3), (3, 1), (3, 0)] {
+            for fault in 0..=lb as u64 {
+                if !sp.take() {
+                    continue;
+                }
+                reg::reset();
+                let opsig = if fault == 0 { "clone_from(same type)" } else { "clone_from(same type)+panic in Clone" };
+                let desc = format!("{name}|dst len={la} (tight) <- src len={lb}|fault@{fault}");
+                let mask = if A::ID_BITS == 0 { 0 } else { (1u64 << A::ID_BITS.min(32)) - 1 };
+                let mut dst: AnyVec<dyn Cloneable> = AnyVec::new::<A>();
+                let mut src: AnyVec<dyn Cloneable> = AnyVec::new::<A>();
+                for i in 0..la as u64 {
+                    dst.push(AnyValueWrapper::new(A::make((i + 1) & mask)));
+                }
+                dst.shrink_to_fit();
+                for i in 0..lb as u64 {
+                    src.push(AnyValueWrapper::new(A::make((i + 11) & mask)));
+                }
+                let want: Vec<Id> = (0..lb as u64).map(|i| (i + 11) & mask).collect();
+                if fault > 0 {
+                    reg::fault_arm(fault);
+                }
+                monalloc::window_open();
+                let r = guarded(|| dst.clone_from(&src));
+                monalloc::window_reset();
+                let (_, fired, _) = reg::fault_end();
+                sp.drain_alloc(opsig, &desc);
+                if dst.len() > dst.capacity() {
+                    sp.viol("len>cap", opsig, format!("after clone_from the destination has len {} > capacity {}", dst.len(), dst.capacity()), &desc);
+                    std::mem::forget(dst);
+                    let _ = reg::take_violations();
+                    sp.done(&desc, true, opsig);
+                    continue;
+                }
+                match (&r, snap_ids::<A, _, _>(&dst)) {
+                    (Ok(()), Ok(ids)) if ids == want && !fired => {}
+                    (Ok(()), other) if !fired => sp.viol("model", opsig, format!("the destination is {other:?}, the source is {want:?}"), &desc),
+                    // after a panic: any valid vector will do (every visible element must be a live one)
+                    (_, Ok(ids)) => {
+                        if A::TRACKED {
+                            let live = reg::live_snapshot(A::TAG);
+                            let mut vis = std::collections::BTreeMap::<Id, i64>::new();
+                            for i in ids.iter().chain(want.iter()) {
+                                *vis.entry(*i).or_insert(0) += 1;
+                            }
+                            for (i, n) in vis {
+                                if live.get(&i).copied().unwrap_or(0) < n {
+                                    sp.viol("dead-visible", opsig, format!("after the panic element id {i} is visible {n} time(s) but only {} live instance(s) exist", live.get(&i).copied().unwrap_or(0)), &desc);
+                                }
+                            }
+                        }
+                    }
+                    (_, Err(e)) => sp.viol("garbage", opsig, format!("after the panic the destination is not a valid vector: {e}"), &desc),
+                }
+                if fired {
+                    sp.ctx.stats.bump("faults_injected", 1);
+                }
+                // still usable, and everything is destroyed exactly once
+                let r2 = guarded(|| {
+                    dst.push(AnyValueWrapper::new(A::make(20 & mask)));
+                    let h = dst.pop().unwrap();
+                    h.downcast::<A>().map(|t| t.probe())
+                });
+                if !matches!(r2, Ok(Some(Ok(i))) if i == 20 & mask) {
+                    sp.viol("model", opsig, format!("push/pop on the destination afterwards gave {r2:?}"), &desc);
+                }
+                drop(dst);
+                drop(src);
+                if A::TRACKED && reg::live_total(A::TAG) != 0 && !fired {
+                    sp.viol("leak", opsig, format!("{} instance(s) alive after everything was dropped", reg::live_total(A::TAG)), &desc);
+                }
+                sp.drain_reg(opsig, &desc);
+                sp.done(&desc, true, opsig);
+            }
+        }
+    }
 }
 
 #[cfg(feature = "alloc")]
 pub fn c08_clone_from(ctx: &mut Ctx) {
-    monalloc::set_mode(monalloc::MODE_OFF);
+    // the allocator monitor watches the storage hand-over (layouts, guard zones, released blocks)
+    monalloc::set_mode(if ctx.tool_mode { monalloc::MODE_OFF } else { monalloc::MODE_GUARD });
+    let _ = monalloc::drain_events();
     let l = if ctx.thorough() { 5 } else { 3 };
     macro_rules! pairs {
         ($($a:ty, $b:ty);*) => { $( c08_clone_from_pair::<$a, $b>(ctx, l); )* };
     }
     // same layout / different type, same type, different layouts, with and without drop glue, zero-sized
     pairs!(W8d, W8d2; W8d2, W8d; W8d, W8d; W8d, W8; W8, W8d; S16d, S16d2; S16d2, S16d; S16d, Q16; Q16, S16d; B8, W8d; W8d, B8; B8, B8; S24d, S24d;
-           P3d, P3; U1d, U1; U1, U1d; Z0d, Z0; Z0, Z0d; Z0d, Z0d; W8d, S16d; S16d, W8d; L160d, U1d; U1d, L160d; A32d, W8d; Z0d, W8d; W8d, Z0d);
+           P3d, P3; U1d, U1; U1, U1d; Z0d, Z0; Z0, Z0d; Z0d, Z0d; W8d, S16d; S16d, W8d; L160d, U1d; U1d, L160d; A32d, W8d; Z0d, W8d; W8d, Z0d;
+           U1d, U1d; L160d, L160d; A32d, A32d; Q16, Q16; S16d, A32d);
+    monalloc::set_mode(monalloc::MODE_OFF);
 }
 #[cfg(not(feature = "alloc"))]
 pub fn c08_clone_from(_ctx: &mut Ctx) {}
